@@ -96,3 +96,11 @@ Definition tie_b : stmt := st (Normal [([n_pkg; n_s], None)]).
 (* import la / from la import x — body uses x and la.x (one object through two routes) *)
 Definition routes_stmts : list stmt := [st (Normal [([n_la], None)]); st (From [n_la] 0%N [(n_x, None)])].
 Definition routes_used : list dotted := [[n_x]; [n_la; n_x]; [n_la; n_y]].
+
+(* def g(x=x): return x   /   print(g(), la.y) *)
+From RopeVerif.C07 Require Import Unbound.
+Definition n_g : text := [103%N].
+Definition n_print : text := [112;114;105;110;116]%N.
+Definition hidden_body : list node :=
+  [NScope false [n_x] [EName n_x] [NExprs [EName n_x]];
+   NExprs [ECall (EName n_print) [ECall (EName n_g) []; EAttr (EName n_la) n_y]]].
